@@ -314,6 +314,29 @@ impl RuntimeData {
             }
         }
 
+        // mark the closures that are being executed: a call frame only holds a pointer into the
+        // closure object, and the callee may have been a temporary that nothing else refers to
+        for frame in self.call_stack.iter() {
+            if frame.closure.is_null() {
+                continue;
+            }
+            for object in self.object_list.iter_mut() {
+                unsafe {
+                    let t = object.as_mut();
+                    let is_frame_closure = match &t.body {
+                        CaoLangObjectBody::Closure(c) => std::ptr::eq(c, frame.closure),
+                        _ => false,
+                    };
+                    if is_frame_closure {
+                        if !matches!(t.marker, GcMarker::Protected) {
+                            t.marker = GcMarker::Gray;
+                        }
+                        progress_tracker.push(t);
+                        break;
+                    }
+                }
+            }
+        }
         // mark the open upvalues: they alias live stack slots until they are closed, and the list
         // itself is walked when a scope ends
         let mut upvalue = self.open_upvalues;
